@@ -19,35 +19,84 @@ TRUSTED = ["harness EM header parser (props/c01.py parse_em)"]
 
 
 # ------------------------------------------------------------------ translator
+def _no_doc(fn):
+    """function body without its docstring, unparsed"""
+    body = fn.body[1:] if (fn.body and isinstance(fn.body[0], ast.Expr) and isinstance(getattr(fn.body[0], "value", None), ast.Constant)
+                           and isinstance(fn.body[0].value.value, str)) else fn.body
+    return body
+
+
 def translate(src):
     rel = "cryocat/cryomotl.py"
     cols = src.anchor("Motl.motl_columns", lambda: src.literal(src.class_attr(rel, "Motl", "motl_columns")))
 
-    def read_literal():
+    def read_guard():
+        """`if not len(<x>) == K: raise` / `if len(<x>) != K: raise`  ->  K   (structural: no variable names)"""
         fn = src.find(rel, "EmMotl.read_in")
-        for n in ast.walk(fn):
-            if isinstance(n, ast.Compare) and "parsed_emfile[0][0]" in ast.unparse(n) and isinstance(n.comparators[0], ast.Constant):
-                return int(n.comparators[0].value)
-        raise core.AnchorMissing("EmMotl.read_in: len(parsed_emfile[0][0]) == <const>")
+        for st in ast.walk(fn):
+            if not (isinstance(st, ast.If) and any(isinstance(b, ast.Raise) for b in st.body)):
+                continue
+            t, neg = st.test, False
+            if isinstance(t, ast.UnaryOp) and isinstance(t.op, ast.Not):
+                t, neg = t.operand, True
+            if isinstance(t, ast.Compare) and len(t.ops) == 1 and isinstance(t.comparators[0], ast.Constant) \
+                    and isinstance(t.left, ast.Call) and isinstance(t.left.func, ast.Name) and t.left.func.id == "len":
+                rejects_unless_equal = (neg and isinstance(t.ops[0], ast.Eq)) or ((not neg) and isinstance(t.ops[0], ast.NotEq))
+                if rejects_unless_equal and isinstance(t.comparators[0].value, int):
+                    return int(t.comparators[0].value)
+        raise core.AnchorMissing("EmMotl.read_in: no `if not len(..) == K: raise` guard")
 
-    n20 = src.anchor("EmMotl.read_in:columns==20", read_literal)
+    n20 = src.anchor("EmMotl.read_in:rejects-unless-K-columns", read_guard)
 
-    def selects():
+    def write_feed():
+        """the expression whose .to_numpy() is written: must select Motl.motl_columns by name and fillna(0.0)"""
         fn = src.find(rel, "EmMotl.write_out")
-        txt = ast.unparse(fn)
-        if "to_numpy" not in txt and "values" not in txt:
-            raise core.AnchorMissing("EmMotl.write_out: no to_numpy()")
-        return "motl_columns" in txt
+        body = _no_doc(fn)
+        assigns = {}
+        for st in body:
+            if isinstance(st, ast.Assign) and len(st.targets) == 1 and isinstance(st.targets[0], ast.Name):
+                assigns.setdefault(st.targets[0].id, []).append(st.value)
+        feed = None
+        for st in body:
+            for n in ast.walk(st):
+                if isinstance(n, ast.Call) and isinstance(n.func, ast.Attribute) and n.func.attr == "to_numpy":
+                    feed = n.func.value
+        if feed is None:
+            raise core.AnchorMissing("EmMotl.write_out: no .to_numpy() call")
+        seen, exprs = set(), [feed]
+        while exprs:  # follow local names back to their definitions
+            e = exprs.pop()
+            for n in ast.walk(e):
+                if isinstance(n, ast.Name) and n.id in assigns and n.id not in seen:
+                    seen.add(n.id)
+                    exprs.extend(assigns[n.id])
+            yield_txt = ast.unparse(e).replace(" ", "")
+            write_feed.txt = getattr(write_feed, "txt", "") + "|" + yield_txt
+        txt = write_feed.txt
+        write_feed.txt = ""
+        selects = any(k in txt for k in ("[Motl.motl_columns]", "[self.motl_columns]", "columns=Motl.motl_columns", ",Motl.motl_columns]"))
+        fills = ".fillna(0.0)" in txt or ".fillna(0)" in txt
+        return [selects, fills]
 
-    sel = src.anchor("EmMotl.write_out:selects-motl_columns", selects)
+    wf = src.anchor("EmMotl.write_out:to_numpy-feed(selects motl_columns, fillna 0)", write_feed)
+
+    def cast_single():
+        fn = src.find(rel, "EmMotl.write_out")
+        txt = "".join(ast.unparse(st).replace(" ", "") for st in _no_doc(fn))
+        return any(k in txt for k in (".astype(np.single)", ".astype(np.float32)", "dtype=np.single", "dtype=np.float32"))
+
+    cs = src.anchor("EmMotl.write_out:astype(np.single)", cast_single)
     cols = cols if isinstance(cols, list) and all(isinstance(c, str) for c in cols) else DOCUMENTED
+    sel, fills = (wf if isinstance(wf, list) else [False, False])
     return f"""-- GENERATED by harness/props/c01.py from {rel}; do not edit
 import CryoCat.Model.Particle
 namespace CryoCat.Gen.C01
 def anchorsOk : Bool := {"true" if src.ok else "false"}
 def motlColumnNames : List String := {core.lean_str_list(cols)}
-def readExpectedColumns : Nat := {n20 if n20 is not None else 0}
+def readExpectedColumns : Nat := {n20 if n20 is not None else 20}
 def writeSelectsCanonical : Bool := {"true" if sel else "false"}
+def writeFillsMissingWithZero : Bool := {"true" if fills else "false"}
+def writeCastsSingle : Bool := {"true" if cs else "false"}
 end CryoCat.Gen.C01
 """
 
@@ -108,9 +157,18 @@ def generate(rng, tier, n):
                 yield dict(cols=cols, rows=[[f2b(float(c + 1)) for c in range(20)], [f2b(_value(rng)) for _ in range(20)]], build="dict")
     for t in range(n):
         N = 1 if rng.random() < 0.05 else (rng.randint(1, maxn) if rng.random() < 0.15 else rng.randint(1, min(maxn, 40)))
+        if rng.random() < 0.06:
+            N = 20                                     # the one N at which particle and field axes look alike
         cols = _perm(rng)
         rows = [[f2b(_value(rng)) for _ in range(20)] for _ in range(N)]
-        case = dict(cols=cols, rows=rows, build=rng.choice(["dict", "reindex"]))
+        if rng.random() < 0.08:                        # a particle with every field missing must come back as 20 zeros
+            rows[rng.randrange(N)] = [f2b(float("nan"))] * 20
+        if rng.random() < 0.10:                        # tiny non-zero magnitudes (below float32 eps, above its smallest subnormal)
+            rows[rng.randrange(N)][rng.randrange(20)] = f2b(rng.choice([3e-8, -7.5e-10, 1e-20, -2.5e-30, 1.2e-7]))
+        case = dict(cols=cols, rows=rows, build=rng.choice(["dict", "reindex", "late_nan"]))
+        if N >= 2 and rng.random() < 0.25:             # history: load the written file, drop particles, write again
+            keep = sorted(rng.sample(range(N), rng.randint(1, N - 1)))
+            case["reload_keep"] = keep
         if rng.random() < 0.04:  # malformed header: the constructor must refuse
             bad = list(cols)
             if rng.random() < 0.5:
@@ -160,11 +218,20 @@ def run_impl(case):
     else:
         df = pd.DataFrame({c: [v[i] for v in vals] for i, c in enumerate(cols)}, dtype=float)
     out = {}
+    late = case.get("build") == "late_nan" and not case.get("malformed")
     with tempfile.TemporaryDirectory(prefix="c01_") as td:
         for path_kind in ("motl", "emmotl"):
             p = os.path.join(td, f"{path_kind}.em")
             try:
-                if path_kind == "motl":
+                if late:
+                    # holes appear AFTER construction (the constructor's own fillna cannot help the writer)
+                    mm = (cryomotl.Motl if path_kind == "motl" else cryomotl.EmMotl)(df.fillna(1.0))
+                    mm.df = mm.df.astype(float).where(~df.isna().to_numpy(), np.nan) if list(mm.df.columns) == list(df.columns) else mm.df
+                    if path_kind == "motl":
+                        mm.write_out(p, "emmotl")
+                    else:
+                        mm.write_out(p)
+                elif path_kind == "motl":
                     cryomotl.Motl(df.copy()).write_out(p, "emmotl")
                 else:
                     cryomotl.EmMotl(df.copy()).write_out(p)
@@ -176,8 +243,23 @@ def run_impl(case):
             em["loaded_cols"] = [str(c) for c in m.df.columns]
             em["loaded"] = [[f2b(x) for x in row] for row in m.df.to_numpy(dtype=float).tolist()]
             em["loaded_type"] = type(m).__name__
+            if case.get("reload_keep") and path_kind == "emmotl":
+                keep = case["reload_keep"]
+                ids = [i for i in range(len(m.df)) if i not in keep]
+                m.df = m.df.drop(index=m.df.index[ids]).reset_index(drop=True) if rng_free_choice(case) else m.df.iloc[keep]
+                p2 = os.path.join(td, "again.em")
+                m.write_out(p2)
+                em2 = parse_em(p2)
+                m2 = cryomotl.Motl.load(p2)
+                em["reload"] = dict(dims=em2["dims"], dtype=em2["dtype"], size_ok=em2["size_ok"], data=em2["data"],
+                                    loaded=[[f2b(x) for x in row] for row in m2.df.to_numpy(dtype=float).tolist()])
             out[path_kind] = em
     return out
+
+
+def rng_free_choice(case):
+    """deterministic per case: alternate between dropping rows with a reset index and keeping a sparse index"""
+    return (len(case["rows"]) + len(case.get("reload_keep", []))) % 2 == 0
 
 
 def requests(case, obs):
@@ -220,6 +302,18 @@ def judge(case, obs, resps):
             i = next(i for i, (a, b) in enumerate(zip(o["data"], exp)) if a != b)
             out.append(dict(kind="spec", clause="file-field-order-or-value",
                             detail=f"{k}: particle {i//20} field {DOCUMENTED[i%20]}: file holds bits {o['data'][i]:#x}, property demands {exp[i]:#x}"))
+        if o.get("machine") != 6:
+            out.append(dict(kind="spec", clause="file-shape", detail=f"{k}: machine code {o.get('machine')} (6 = little-endian PC expected)"))
+        if "reload" in o:
+            keep = case["reload_keep"]
+            exp2 = [b for i in keep for b in exp[20 * i:20 * i + 20]]
+            r2 = o["reload"]
+            if r2["dims"] != [20, len(keep), 1] or r2["dtype"] != 5 or not r2["size_ok"]:
+                out.append(dict(kind="spec", clause="reload-file-shape", detail=f"{k}: after load / drop particles / write again: dims={r2['dims']} for {len(keep)} particles, payload ok={r2['size_ok']}"))
+            elif r2["data"] != exp2:
+                out.append(dict(kind="spec", clause="reload-values", detail=f"{k}: after load / drop particles / write again the file does not hold the kept particles"))
+            elif r2["loaded"] != [[f2b(float(np.array([b], dtype=np.uint32).view(np.float32)[0])) for b in exp2[20 * i:20 * i + 20]] for i in range(len(keep))]:
+                out.append(dict(kind="spec", clause="reload-values", detail=f"{k}: second load differs from the kept particles"))
         if o["loaded_cols"] != DOCUMENTED:
             out.append(dict(kind="spec", clause="loaded-header", detail=f"{k}: {o['loaded_cols']}"))
         exp_loaded = [[f2b(float(np.array([b], dtype=np.uint32).view(np.float32)[0])) for b in exp[20 * i:20 * i + 20]] for i in range(N)]
@@ -250,7 +344,9 @@ def stats(case, obs, resps):
     n = len(case["rows"])
     perm = "malformed" if case.get("malformed") else ("identity" if case["cols"] == DOCUMENTED else
             ("transposition" if sum(a != b for a, b in zip(case["cols"], DOCUMENTED)) == 2 else "shuffle"))
-    return {"N": "1" if n == 1 else ("2-10" if n <= 10 else ("11-40" if n <= 40 else ">40")), "perm": perm, "build": case.get("build", "dict")}
+    return {"N": "1" if n == 1 else ("20" if n == 20 else ("2-10" if n <= 10 else ("11-40" if n <= 40 else ">40"))), "perm": perm, "build": case.get("build", "dict"),
+            "history": "load-drop-write" if case.get("reload_keep") else "single round trip",
+            "all_nan_row": any(all(math.isnan(b2f(b)) for b in r) for r in case["rows"])}
 
 
 def sample_view(case):
